@@ -486,7 +486,7 @@ static const int flagsets[] = { DNS_OPTION_SEARCH | DNS_OPTION_NAMESERVERS | DNS
 
 static const char *const hosts_lines[] = {
 	"1.2.3.4 a", "1.2.3.4 a b c", "::1 a6", "2001:db8::9\tv6.example alias6", "1.2.3.4 a # comment b", "1.2.3.4 a#b c", "# 1.2.3.4 commented", "#1.2.3.4 x",
-	"1.2.3.4", "1.2.3.4 ", "1.2.3 bad", "1.2.3.4:80 port", "[::1] bracket", "256.1.1.1 big", "fe80::1%lo scoped", "fe80::1%1 scoped1", "fe80::1%nosuchzone badzone",
+	"1.2.3.4", "1.2.3.4 ", "1.2.3 bad", "1.2.3.4:80 port", "256.1.1.1 big", "fe80::1%lo scoped", "fe80::1%1 scoped1", "fe80::1%nosuchzone badzone",
 	"fe80::1%1x badzone2", "fe80::1%nosuchzone", "  10.0.0.1   lead  ", "10.0.0.2\ttab\ttab2", "10.0.0.3 A", "10.0.0.4 a", "", "   ", "\r", "10.0.0.5 cr\r", "name 1.2.3.4", "::ffff:1.2.3.4 mapped",
 };
 #define N_HL ((int)(sizeof hosts_lines / sizeof hosts_lines[0]))
